@@ -13,6 +13,7 @@ What is inlined is recorded (`Crate.inlined`) and reported in the evidence."""
 import copy
 import json
 import os
+import re
 
 VERIF = os.path.dirname(os.path.dirname(os.path.abspath(__file__)))
 MAX_BLOCKS = 600
@@ -22,7 +23,13 @@ def known_ids():
     p = os.path.join(VERIF, "tables", "known_functions.json")
     if not os.path.exists(p):
         return None
-    return set(json.load(open(p))["ids"])
+    return set(_stable(i) for i in json.load(open(p))["ids"])
+
+
+def _stable(fid):
+    """Function id without the positional parts of its path: the ordinal of the impl block / closure it sits in changes
+    when an unrelated impl is added earlier in the file, and must not make every later private method look new."""
+    return re.sub(r"\{(impl|closure|constant|opaque)#\d+\}", r"{\1}", fid)
 
 
 # ---------------------------------------------------------------- schema-aware rewriting of MIR JSON
@@ -285,7 +292,7 @@ def apply(crate):
         return log
     new = {}
     for b in crate.bodies:
-        if b.get("kind") != "fn" or b["id"] in known or b.get("pub") or b.get("impl_trait") or b.get("trait_default"):
+        if b.get("kind") != "fn" or _stable(b["id"]) in known or b.get("pub") or b.get("impl_trait") or b.get("trait_default"):
             continue
         if "::tests::" in b["id"] or b["id"].endswith("::tests") or "::test_" in b["id"]:
             continue
@@ -301,6 +308,8 @@ def apply(crate):
         for c in crate.bodies:
             if c["id"] in leaves or c["id"] in {hid + "::{closure#0}" for hid in leaves}:
                 continue
+            if (c.get("impl_trait") or "").rsplit("::", 1)[-1] in ("Serialize", "Deserialize", "Visitor", "DeserializeSeed"):
+                continue    # serde impls are read structurally by va/schema.py, which classifies a named skip/default predicate by its own body
             mir = c["mir"]
             if len(mir["blocks"]) > 4000:
                 continue
@@ -345,7 +354,9 @@ def apply(crate):
                 if t.get("k") == "call" and (t.get("callee_id") == hid or t.get("resolved_id") in (hid, cid)):
                     still = True
         if not still:
-            gone |= {hid, cid}
+            gone.add(hid)
+            if (crate.by_id.get(cid) or {}).get("kind") == "coroutine":
+                gone.add(cid)      # the coroutine of an async helper; a real closure of a sync helper lives on in its new parent
     if gone:
         crate.bodies[:] = [b for b in crate.bodies if b["id"] not in gone]
         for g in gone:
